@@ -1,6 +1,6 @@
 (* Witnesses for the known findings of C11 (known_findings/C11.json): on these histories the index invariant is false in the
    model, as it is in the implementation (the replays of the findings show the same corruption through the public API). *)
-Require Import PonyV.Model.SessionBase PonyV.Model.SessionDb PonyV.Model.Session PonyV.Proofs.SessionIdx.
+Require Import PonyV.Gen.SessionFlags PonyV.Model.SessionBase PonyV.Model.SessionDb PonyV.Model.Session PonyV.Proofs.SessionIdx.
 
 (* obj.set(a0=3, a1=<value held by another object>) fails with CacheIndexError on a1 after the index of a0 was updated: the
    index maps 3 to the object whose a0 is still 1 (core.py: Entity.set never registers its undo closure) *)
@@ -9,13 +9,15 @@ Definition c11_ops1 : list op :=
   [ONew 0 (Some 1%Z) [(0, AInt 1%Z); (1, AInt 1%Z)]; ONew 0 (Some 2%Z) [(0, AInt 2%Z); (1, AInt 2%Z)];
    OSetMany 0 [(0, AInt 3%Z); (1, AInt 2%Z)]]%nat.
 
-Theorem C11_refuted_failed_set_corrupts_index :
+(* stated under the flag of Gen/SessionFlags.v that says Entity.set still has this shape (vacuous once proposed_fixes/C13-entity-set-... is in /repo) *)
+Theorem C11_refuted_failed_set_corrupts_index : entity_set_registers_undo = false ->
   wf_schema c11_sch1 = true /\ s_dirty (run c11_sch1 c11_ops1) = 2%nat /\ ~ Inv_idx c11_sch1 (run c11_sch1 c11_ops1).
 Proof.
-  split. reflexivity. split. vm_compute. reflexivity.
-  intro I. assert (H : idx_get (run c11_sch1 c11_ops1) 0 1 (VInt 3%Z) = Some 0%nat) by (vm_compute; reflexivity).
-  apply (I 0%nat 1%nat (VInt 3%Z) 0%nat) in H. destruct H as (ob & G & _ & K).
-  vm_compute in G. inversion G; subst ob. vm_compute in K. discriminate.
+  intros FL. tryif discriminate FL then idtac else (
+    split; [reflexivity|]; split; [vm_compute; reflexivity|];
+    intro I; assert (H : idx_get (run c11_sch1 c11_ops1) 0 1 (VInt 3%Z) = Some 0%nat) by (vm_compute; reflexivity);
+    apply (I 0%nat 1%nat (VInt 3%Z) 0%nat) in H; destruct H as (ob & G & _ & K);
+    vm_compute in G; inversion G; subst ob; vm_compute in K; discriminate).
 Qed.
 Print Assumptions C11_refuted_failed_set_corrupts_index.
 
